@@ -174,8 +174,16 @@ func (w *wal) read() (WALBatch, error) {
 	reader := bufio.NewReader(w.reader)
 	tupleLenBuf := make([]byte, 4)
 
+	// size (in bytes) of the complete records read so far
+	var goodSize int64
+	// true if the log ends in the middle of a record
+	tornTail := false
+
 	for {
 		if n, err := io.ReadFull(reader, tupleLenBuf); err == io.EOF {
+			break
+		} else if err == io.ErrUnexpectedEOF {
+			tornTail = true
 			break
 		} else if err != nil {
 			return ret, err
@@ -189,7 +197,10 @@ func (w *wal) read() (WALBatch, error) {
 		}
 
 		tupleBuf := make([]byte, tupleLen)
-		if n, err := io.ReadFull(reader, tupleBuf); err != nil {
+		if n, err := io.ReadFull(reader, tupleBuf); err == io.EOF || err == io.ErrUnexpectedEOF {
+			tornTail = true
+			break
+		} else if err != nil {
 			return ret, err
 		} else if n != tupleLen {
 			panic("bytes read differs from expected buffer length")
@@ -200,6 +211,18 @@ func (w *wal) read() (WALBatch, error) {
 			return ret, err
 		}
 		ret = append(ret, w)
+		goodSize += int64(len(tupleLenBuf) + tupleLen)
+	}
+
+	if tornTail {
+		// the process died while appending the last record: that record was
+		// never acknowledged. cut it off so that new records follow the last
+		// complete one.
+		if f, ok := w.reader.(interface{ Truncate(size int64) error }); ok {
+			if err := f.Truncate(goodSize); err != nil {
+				return ret, err
+			}
+		}
 	}
 
 	return ret, nil
